@@ -756,6 +756,45 @@ def run_types(ctx, out, table_out):
                       key="type:%s:%s:%d" % (r["code"][:80], r["context"], r["span"]))
 
 
+def run_decls(ctx, out):
+    """declarations: an independent count of what each variable receives, tree vs re-parsed output"""
+    name = ("declarations: local and const, 1-4 variables, 0-4 values, last value in {literal, nil, call, method call, ..., "
+            "(f()), (...), if-expression, table, f()(), string, f()+f()}, earlier values literals or calls/..., built through "
+            "the node API (dense, readable at spans 0, 7, 80, token-based) and as parsed sources through process() "
+            "(retain_lines, dense, readable at spans 1, 80): what each variable receives (positional, expansion of a "
+            "trailing call or ..., nil for the rest; Lua manual 2.4.3) is the same for the tree and for the re-parsed text, "
+            "and every value expression is still written in order")
+    rows = []
+    pad = []
+    skipped = 0
+    for line in out.splitlines():
+        p = line.split(" ")
+        if p[0] == "decl" and len(p) == 8:
+            if p[7] == "skip":
+                skipped += 1
+                continue
+            rows.append({"origin": p[2], "generator": p[3], "span": int(p[4]), "tag": p[5], "text": p[6], "verdict": p[7]})
+        elif p[0] == "declpad" and len(p) == 4:
+            pad.append((p[1], int(p[2]), int(p[3])))
+    if "end" not in out.splitlines()[-1:]:
+        raise C.CheckBroken("dl-c02 decls: truncated output")
+    wrong = [k for k, nils, multi in pad if (nils == 0) != (multi == 1)]
+    ctx.obligation("required_nil_values pads a const declaration exactly when the last value is not a call or ... outside "
+                   "parentheses (hypothesis of theorem const_padding_neutral), over %d kinds of last value" % len(pad),
+                   not wrong and len(pad) >= 10, "wrong for: %s" % ", ".join(wrong))
+    bad = [r for r in rows if r["verdict"] != "ok"]
+    nt = sum(1 for r in rows if int(r["tag"].split(":")[1]) != int(r["tag"].split(":")[2]))
+    ctx.stream(name, len(rows), nt, [{"declaration": r["tag"], "generator": r["generator"], "text": text_of(r["text"])} for r in rows[700:703]],
+               mismatches=len(bad), sources_rejected_by_the_parser=skipped)
+    for r in bad[:4]:
+        ctx.violation("%s generator (column span %d) writes a declaration whose variables do not receive the values the tree "
+                      "gives them: %s" % (r["generator"], r["span"], r["verdict"]),
+                      {"stream": "declarations", "declaration": r["tag"], "origin": r["origin"], "generator": r["generator"],
+                       "span": r["span"], "text": text_of(r["text"]) if r["text"] not in ("PANIC", "FAILED") else r["text"],
+                       "verdict": r["verdict"]},
+                      key="decl:%s:%s:%d" % (r["tag"], r["generator"], r["span"]))
+
+
 PREAMBLE_NODE = """From DL Require Import Lib.Bytes Model.Lexer Model.DenseGen Model.Precedence Model.C02Check.
 Open Scope N_scope.
 Open Scope string_scope.
@@ -990,6 +1029,7 @@ def run(ctx):
 
     run_leaves(ctx, C.harness("dl-c02", ["leaves"], timeout=1800), exe, 40 if quick else 200)
     run_nodes(ctx, C.harness("dl-c02", ["nodes"], timeout=1800), exe, 40 if quick else 200)
+    run_decls(ctx, C.harness("dl-c02", ["decls"], timeout=1800))
     run_types(ctx, C.harness("dl-c02", ["types", "--seed", str(ctx.seed), "--random", "150" if quick else "3000"], timeout=1800),
               C.harness("dl-c02", ["typetable"], timeout=600))
 
